@@ -12,7 +12,7 @@ CHECKS = {
  "C06": dict(
    level="exploration",
    technique="model-based testing against a reference interpreter: value metadata on every SSA IR node of generated executable programs compared with concrete values at every dynamic evaluation over generated valuations and all three primes (proptest tapes, shrinking); CS0009/CS0010 consumers checked on their own terms",
-   text="Generated functions/templates (all operators, boundary literals, loops, branches, shadowing, arrays, helper calls, signals, Num2Bits/Bits2Num instantiations) are lifted to SSA; a reference interpreter runs the generator's own AST under documentation-derived field semantics for 12 valuations. Every claimed constant on a node that maps back to a generator node must equal every recorded value of that node; every `always true/false` finding must agree with the recorded truth values; a Num2Bits/Bits2Num size judged safe under BN254 must be < 254 in every run.",
+   text="Generated functions/templates (all operators, boundary literals, loops, branches, shadowing, arrays, helper calls, signals, Num2Bits/Bits2Num instantiations) are lifted to SSA; a reference interpreter runs the generator's own AST under documentation-derived field semantics for 12 valuations. Every claimed constant on a node that maps back to a generator node must equal every recorded value of that node; every `always true/false` finding must agree with the recorded truth values; a Num2Bits/Bits2Num size judged safe under BN254 must be < 254 in every run. A second sub-check writes the definition (with helper functions, template stubs and mostly a main component) to a file and runs the real binary under --curve: the constant-condition findings displayed must equal those of the in-process analysis under that curve's prime.",
    note="One-sided randomized oracle: no false alarms by construction, detection depends on a distinguishing valuation. Reference semantics in harness/src/field.rs + interp.rs. Locals are read only where definitely assigned (known finding F13 excluded by construction and replayed separately).",
    design="DESIGN.md §3 C06"),
  "C07": dict(
@@ -60,7 +60,7 @@ CHECKS = {
  "C14": dict(
    level="translation_validation",
    technique="static audit plus dynamic path walks of the SSA CFG of generated definitions (proptest tapes, shrinking) against reference dominators and a last-assigned-version model maintained along each generated path",
-   text="After into_ssa: single definition per versioned local, phi placement, dominance of uses by definitions and of phi arguments over an incoming edge (reference dominators), declarations cover every version, signals/components unversioned. Along 16 generated paths per definition the harness tracks the version last assigned to each variable and requires every traversed phi to list it and every read to name it, while the statement sequence is kept in lock step with the structured source walk (so the read sees the same source assignment).",
+   text="After into_ssa: single definition per versioned local, phi placement, dominance of uses by definitions and of phi arguments over an incoming edge (reference dominators), declarations cover every version, signals/components unversioned. Along 16 generated paths per definition the harness tracks the version last assigned to each variable and requires every traversed phi to list it and every read to name it, while the statement sequence is kept in lock step with the structured source walk (so the read sees the same source assignment). The static audit alone also runs on definitions whose locals are read wherever they are declared (converted or refused) and on the desugared templates of C18's sugared programs (anonymous components in loop bodies).",
    note="Definitions whose conversion fails are skipped (counted). Reads are generated only where the variable is definitely assigned (known class F13 excluded by construction).",
    design="DESIGN.md §3 C14"),
  "C15": dict(
@@ -72,7 +72,7 @@ CHECKS = {
  "C01": dict(
    level="exploration",
    technique="fuzzing of the real release binary with generated inputs: raw bytes / token soup, grammar-derived programs (every production, semantically undisciplined and semantically valid), token-level mutations of valid programs, small inputs with one deeply nested construct (16 shapes), x random option sets; oracle = clean-termination predicate under CPU and memory limits (proptest tapes with shrinking; libFuzzer in-process targets in the thorough tier)",
-   text="The real CLI is executed as a subprocess (RLIMIT_CPU, RLIMIT_AS, cleared environment) on generated projects of 1-3 files with random supported options. A run is clean iff it exits by itself with status 0 or 1, its last stdout line is the summary, the status matches the summary and stderr shows no panic, stack overflow or allocation failure. Evidence reports how many inputs were rejected by the lexer/parser, by the desugarer, or reached the analysis stage, and the histogram of report ids produced. All committed reproducers are replayed under all three curves. A nesting-depth domain feeds small inputs with one construct nested 10-400 deep (it found the exponential blow-up on nested array indices, repaired). One recorded known finding (stack overflow on a statement with several thousand chained operators) is reported as KNOWN-FINDING; it is identified by the input shape (a statement with >= 1000 operators), so any other stack overflow is a violation.",
+   text="The real CLI is executed as a subprocess (RLIMIT_CPU, RLIMIT_AS, cleared environment) on generated projects of 1-3 files with random supported options. A run is clean iff it exits by itself with status 0 or 1, its last stdout line is the summary, the status matches the summary and stderr shows no panic, stack overflow or allocation failure. Evidence reports how many inputs were rejected by the lexer/parser, by the desugarer, or reached the analysis stage, and the histogram of report ids produced. All committed reproducers are replayed under all three curves. The include projects of C19 (cycles over relative paths and through -L directories, directory arguments, symlinks) are run with only termination and exit status judged. A nesting-depth domain feeds small inputs with one construct nested 10-400 deep (it found the exponential blow-up on nested array indices, repaired). One recorded known finding (stack overflow on a statement with several thousand chained operators) is reported as KNOWN-FINDING; it is identified by the input shape (a statement with >= 1000 operators), so any other stack overflow is a violation.",
    note="Modest size = files <= 16 KiB, nesting depth <= 8 in the grammar domains and <= 400 in the nesting-depth domain. Hang = more than 120 CPU-seconds (480 on re-run; 30/120 for the nesting-depth inputs), far above the documented 2 x 10 s time box. Absence of crashes cannot be established by sampling.",
    design="DESIGN.md §3 C01"),
  "C02": dict(
@@ -102,7 +102,7 @@ CHECKS = {
  "C18": dict(
    level="translation_validation",
    technique="(a) own AST walker over parse_files output of generated `wild` programs (sugar in every position) checking completeness/rejection and panic-freedom downstream; (b) differential testing of generated sugared templates against generator-written expansions, comparing finding multisets (proptest tapes, shrinking)",
-   text="Completeness: no tuple, anonymous component or multi-substitution may remain in any template handed to the analysis; functions containing sugar must be absent with a TAC01/TAC02 error; dropped templates must come with such an error; lifting, SSA and all passes on the rest must not panic. Faithfulness: for 14 sugar forms (tuple assignments in both arrow directions and declarations, nested tuples, a template with comma-separated non-alphabetical ports, positional/named/parallel/multi-output/statement anonymous components, anonymous components inside tuples) the findings of the sugared template equal those of the hand-written expansion defined in the property, as multisets of (id, message and label messages with component names normalised); weaker containment relation inside loops.",
+   text="Completeness: no tuple, anonymous component or multi-substitution may remain in any template handed to the analysis; functions containing sugar must be absent with a TAC01/TAC02 error; dropped templates must come with such an error; lifting, SSA and all passes on the rest must not panic. Faithfulness: for 14 sugar forms (tuple assignments in both arrow directions and declarations, nested tuples, a template with comma-separated non-alphabetical ports, positional/named/parallel/multi-output/statement anonymous components, anonymous components inside tuples) the findings of the sugared template equal those of the hand-written expansion defined in the property, as multisets of (id, message and label messages with component names normalised); weaker containment relation inside loops, plus the relation that removing the `parallel` prefix of anonymous components leaves the findings unchanged (also in loop bodies); helper templates may live in an included file and be written with sugar themselves; the completeness runs have no, one or two main components.",
    note="Pairs whose expansion is rejected are discarded. Loop positions use the weaker relation because the explicit Circom form of per-iteration components differs across 2.0.0-2.1.4.",
    design="DESIGN.md §3 C18"),
  "C19": dict(
